@@ -3,6 +3,7 @@
 //
 // case = [0, gr_peers, duration, inputs]   RestartingDeferral::{new, process}   (C11)
 // case = [1, inputs]                        GrState::{new, process}             (C10)
+// case = [2, ops]                           rustybgp_table::Table start_deferral / insert / end_deferral (C11)
 use super::*;
 
 #[allow(dead_code)]
@@ -83,10 +84,114 @@ fn run_rd_case(l: &[Val]) -> Val {
     ])
 }
 
+// ------------------------------------------------- C11: deferral slice of the RIB
+// ops: [0,f] start_deferral | [1,f,net,peer,pid,filtered] insert | [2,f] end_deferral
+// public API of rustybgp-table only; every insert carries a fresh attribute block.
+fn tab_net(n: u32) -> rustybgp_packet::Nlri {
+    rustybgp_packet::Nlri::V4(rustybgp_packet::bgp::Ipv4Net {
+        addr: std::net::Ipv4Addr::new(10, 1, n as u8, 0),
+        mask: 24,
+    })
+}
+fn tab_net_val(n: &rustybgp_packet::Nlri) -> Val {
+    match n {
+        rustybgp_packet::Nlri::V4(p) => Val::n(p.addr.octets()[2]),
+        _ => Val::I(-3),
+    }
+}
+fn tab_source(peer: u8) -> std::sync::Arc<rustybgp_table::Source> {
+    std::sync::Arc::new(rustybgp_table::Source::new(
+        IpAddr::V4(std::net::Ipv4Addr::new(10, 0, 0, peer)),
+        IpAddr::V4(std::net::Ipv4Addr::new(10, 0, 0, 254)),
+        65000 + peer as u32,
+        65000,
+        std::net::Ipv4Addr::new(0, 0, 0, peer),
+        rustybgp_table::PeerRole::Ebgp,
+    ))
+}
+// the deferring flag is not readable through the public API: probe it with an
+// insert of a scratch prefix (NoChange while deferring) that is removed again
+fn tab_probe(t: &mut rustybgp_table::Table, f: Family) -> bool {
+    let src = tab_source(250);
+    let r = t.insert(
+        src.clone(),
+        f,
+        tab_net(255),
+        0,
+        None,
+        std::sync::Arc::new(Vec::new()),
+        None,
+        false,
+        false,
+        None,
+        0,
+    );
+    let deferring = r.as_changed().is_none();
+    let _ = t.remove(src, f, tab_net(255), 0, None);
+    deferring
+}
+fn changes_val(ch: &[rustybgp_table::NlriChange]) -> Val {
+    let mut v: Vec<(i128, i128)> = ch
+        .iter()
+        .map(|c| (tab_net_val(&c.net).int(), c.current_paths.len() as i128))
+        .collect();
+    v.sort();
+    Val::L(v.into_iter().map(|(a, b)| Val::L(vec![Val::I(a), Val::I(b)])).collect())
+}
+fn run_tab_case(l: &[Val]) -> Val {
+    let mut t = rustybgp_table::Table::new(0);
+    let mut srcs: FnvHashMap<u8, std::sync::Arc<rustybgp_table::Source>> = FnvHashMap::default();
+    let mut obs = Vec::new();
+    for op in l[1].list() {
+        let o = op.list();
+        let f = fam_of(&o[1]);
+        let res = match o[0].int() {
+            0 => {
+                t.start_deferral(f);
+                Val::L(vec![])
+            }
+            1 => {
+                let peer = o[3].u8();
+                let src = srcs.entry(peer).or_insert_with(|| tab_source(peer)).clone();
+                let r = t.insert(
+                    src,
+                    f,
+                    tab_net(o[2].u32()),
+                    o[4].u32(),
+                    None,
+                    std::sync::Arc::new(Vec::new()),
+                    None,
+                    o[5].bool(),
+                    false,
+                    None,
+                    0,
+                );
+                match r {
+                    rustybgp_table::InsertResult::NoChange => Val::L(vec![Val::n(0u8)]),
+                    rustybgp_table::InsertResult::Changed(c) => Val::L(vec![
+                        Val::n(1u8),
+                        tab_net_val(&c.net),
+                        Val::us(c.current_paths.len()),
+                    ]),
+                    rustybgp_table::InsertResult::PrefixLimitExceeded => Val::L(vec![Val::I(-4)]),
+                }
+            }
+            2 => {
+                let ch = t.end_deferral(f);
+                Val::L(vec![Val::n(2u8), changes_val(&ch)])
+            }
+            x => panic!("verif: bad table op {}", x),
+        };
+        obs.push(Val::L(vec![res, Val::b(tab_probe(&mut t, f))]));
+    }
+    Val::L(obs)
+}
+
 fn run_case(case: &Val) -> Val {
     let l = case.list();
     match l[0].int() {
         0 => run_rd_case(l),
+        2 => run_tab_case(l),
         t => panic!("verif: bad gr case kind {}", t),
     }
 }
